@@ -5,6 +5,7 @@ CONSTANTS
   Origins = {1, 2, 3}
   Tables = {0, 1, 2, 3}
   Triples = TRUE
+  Full = TRUE
 INVARIANT AllRotations
 ACTION_CONSTRAINT Emit
 CHECK_DEADLOCK FALSE
